@@ -141,6 +141,16 @@ dfs:
 		}
 		src := set.srcMap.At(curr.t).(*providerSetSrc)
 		used = append(used, src)
+		// A binding whose provided type is itself an interface bound in this
+		// set is resolved through that binding, which is therefore used too.
+		for b := src.Binding; b != nil; {
+			next, _ := set.srcMap.At(b.Provided).(*providerSetSrc)
+			if next == nil {
+				break
+			}
+			used = append(used, next)
+			b = next.Binding
+		}
 		if concrete := pv.Type(); !types.Identical(concrete, curr.t) {
 			// Interface binding does not create a call.
 			i := index.At(concrete)
